@@ -63,3 +63,16 @@ Example C03_known_D10_witness :
   ulog (uenc (UTop 0)) (log (snd (run_scenario 1000 d10_scenario))) = [Nx (VBool true); Co] /\
   spec_sequence_equal2 [(0, Nx (VInt 1)); (0, Co); (1, Co)] = Some [Nx (VBool false); Co].
 Proof. vm_compute. split; reflexivity. Qed.
+
+(* ------------------------------------------------------------------ operators that subscribe further sources later *)
+From RXP Require Import MLocDyn.
+(* concat of k+1 sources (source i+1 is subscribed when source i completes; what it signals before is not heard) *)
+Theorem C03_concat : forall k l, mrun_first OConcat k l = spec_concat (S k) 0 l.
+Proof. exact concat_correct. Qed.
+Check C03_concat : forall k l, mrun_first OConcat k l = spec_concat (S k) 0 l.
+Print Assumptions C03_concat.
+(* on_error_resume_next: the source's items; if it fails, the resume source's items and terminal *)
+Theorem C03_on_error_resume_next : forall k l, mrun_first OResume k l = spec_resume 0 l.
+Proof. exact resume_correct. Qed.
+Check C03_on_error_resume_next : forall k l, mrun_first OResume k l = spec_resume 0 l.
+Print Assumptions C03_on_error_resume_next.
